@@ -20,10 +20,11 @@ structure Exact {ι κ : Type} (n : Nat) (live : Nat → Bool) (key : ι → Nat
   sound : ∀ i v o, ix i v = some o → o < n ∧ live o = true ∧ key i o = some v
   complete : ∀ i o v, o < n → live o = true → key i o = some v → ix i v = some o
 
-variable {ι κ : Type} {n : Nat} {live : Nat → Bool} {key : ι → Nat → Option κ} {ix : ι → κ → Option Nat}
+set_option linter.unusedSectionVars false
+variable {ι κ : Type} [DecidableEq κ] {n : Nat} {live : Nat → Bool} {key : ι → Nat → Option κ} {ix : ι → κ → Option Nat}
 
 theorem Exact.empty (key : ι → Nat → Option κ) (live : Nat → Bool) : Exact 0 live key (fun _ _ => none) :=
-  ⟨fun _ _ _ h => by cases h, fun _ _ _ h => absurd h (Nat.not_lt_zero _)⟩
+  ⟨fun _ _ _ h => (by cases h), fun _ _ _ h => absurd h (Nat.not_lt_zero _)⟩
 
 /-- one object per key value -/
 theorem Exact.inj (h : Exact n live key ix) (i : ι) (v : κ) (o₁ o₂ : Nat) (h₁ : o₁ < n) (h₂ : o₂ < n)
@@ -147,10 +148,10 @@ theorem inv_iff_exact (sch : Schema) (s : Sess) :
       exact ⟨a, by simp [b], c⟩
     · intro i o v ho l k
       exact h.key_complete i o v ho (by simpa using l) k
-    · intro _ k o e; exact h.pk_sound k o e
+    · intro _ k o e; exact ⟨(h.pk_sound k o e).1, (h.pk_sound k o e).2.2, (h.pk_sound k o e).2.1⟩
     · intro _ o k ho l p; exact h.pk_complete o k ho p l
   · rintro ⟨h1, h2⟩
-    refine ⟨fun k o e => h2.sound () k o e, fun o k ho p l => h2.complete () o k ho l p, ?_, ?_⟩
+    refine ⟨fun k o e => ⟨(h2.sound () k o e).1, (h2.sound () k o e).2.2, (h2.sound () k o e).2.1⟩, fun o k ho p l => h2.complete () o k ho l p, ?_, ?_⟩
     · intro i v o e
       obtain ⟨a, b, c⟩ := h1.sound i v o e
       exact ⟨a, by simpa using b, c⟩
